@@ -95,6 +95,9 @@ PROPS = {
             {"name": "lru_conformance", "repo_crate": "storage", "package": "qbice_storage", "test": "verif_lru_conformance", "env": {"VERIF_LRU_DEPTH": 3},
              "ok_re": r"VERIF-LRU-CONFORMANCE ok sequences=(\d+)", "bad_re": r"VERIF-LRU-CONFORMANCE VIOLATION.*", "tiers": ("quick", "thorough"),
              "bound": "ALL sequences of <= 3 Lru operations (9 kinds) over 3 keys x 4 regions x capacity {0,1}: every clause of the abstract Lru contract assumed by the Policy proof, evaluated on the real Lru after every call (pointer discipline included)"},
+            {"name": "policy_new_capacities", "repo_crate": "storage", "package": "qbice_storage", "test": "verif_policy_new_capacities", "env": {},
+             "ok_re": r"VERIF-POLICY-NEW ok capacities=(\d+)", "bad_re": r"VERIF-POLICY-NEW VIOLATION.*", "tiers": ("quick", "thorough"),
+             "bound": "the REAL Policy::new (f64 arithmetic, outside Verus) for capacities 0..=4096, around every power of two up to 2^20 and a few larger ones: the capacity clauses of the Policy invariant the proof assumes (window <= max, protected below the main limit) and max_capacity within [capacity, capacity + 2]"},
             {"name": "cache_histories", "bin": "replay_c16", "crate": "replay", "tiers": ("quick", "thorough"),
              "bound": "the real public TinyLFU, single-threaded, Piggyback maintenance, both unpin strategies: 60 seeded random histories of 1500 operations at capacities 1..8, 12 seeded random phase histories at capacities 96/160 (above the maintenance slack, so the bound is not vacuous), directed histories (empty probation at unpin, re-pin before a stale unpin, long-lived pin, popular newcomers against pinned victims, parked entries replaced within one maintenance batch at capacities 100/200); after every phase: pinned entries readable with their latest value, removed entries gone, residents <= capacity + pinned + 74"},
             {"name": "lock_table_same_lock", "bin": "replay_c16_locks", "crate": "replay", "tiers": ("quick", "thorough"),
@@ -113,7 +116,7 @@ PROPS = {
             "K::clone returns an equal key (axiom_key_clone)",
             "Sketch and the hasher are opaque for the Policy proof (any frequency estimate is safe); sketch.rs itself is verified for index/overflow safety under `global size_of usize == 8`",
             "BloomFilter::clear and CountMinSketch::reset use iter_mut (no usable Verus model): contract trusted in Verus, checked by Kani on one word",
-            "Policy::new (f64 arithmetic) is not under contract: the invariant's capacity relations are a precondition",
+            "Policy::new (f64 arithmetic) is not under contract: the invariant's capacity relations are a precondition of the proof, checked on the real constructor by the bounded run policy_new_capacities (hook)",
             "dispatcher (tiny_lfu.rs process_write / process_message): proved that every message is delivered to its handler with its own key whatever the storage map answers (struct stand-in TinyLFUInner: storage is opaque with arbitrary query results; owner_answers is the DEFINED relation proved of remove_closure); process_policy_message (the whole maintenance pass: pop loop, drained read hits, Poll-mode trim) keeps the policy invariant and parks only keys the owner refused to give up, for any contents of the (opaque, concurrently filled) buffers -- its termination is not verified (other threads keep pushing); try_maintenance and the buffers themselves are not under contract; ReadBuffer::drain is a stand-in returning a Vec instead of `impl Iterator`",
             "the maintenance pass as a whole forgets only keys the owner gave up UNDER THE ENTRY LOCK (owner_answers, proved of remove_closure) or removed itself (Removed message): an eviction path that checks the pin and removes in two steps (read_sync + remove_sync stand-ins establish no such event) fails this clause",
             "concurrency is NOT decided: write_buffer/read_buffer lag between storage map and policy, DedicatedThread mode; the lock-table sentence of the property (query_lock_manager.rs: is_pinned = Arc::strong_count > 1) is covered only by the bounded lock-table run",
